@@ -8,18 +8,20 @@ EXTENDS ConnTable, Json
 
 VARIABLES hist, finished,
           held,     \* requests the writer of a stalled connection has held at a hand-over
-          rdial     \* redirected requests whose reader was about to create the client when all clients were reset
-gvars == <<vars, hist, finished, held, rdial>>
-GenView == <<vars, finished, held, rdial>>
+          rdial,    \* redirected requests whose reader was about to create the client when all clients were reset
+          cfgd,     \* requests that made the first connect after a run-time configuration update
+          closs     \* the last loss of the connection since the configuration update ("" none)
+gvars == <<vars, hist, finished, held, rdial, cfgd, closs>>
+GenView == <<vars, finished, held, rdial, cfgd, closs>>
 
-GenInit == Init /\ hist = <<>> /\ finished = FALSE /\ held = {} /\ rdial = {}
+GenInit == Init /\ hist = <<>> /\ finished = FALSE /\ held = {} /\ rdial = {} /\ cfgd = {} /\ closs = ""
 
 Log(rec) == hist' = Append(hist, rec)
 
 Finish ==
   /\ ~finished /\ next > Cardinality(Reqs) /\ Quiet
   /\ PrintT("@@BEH " \o ToJson(hist))
-  /\ finished' = TRUE /\ UNCHANGED <<vars, hist, held, rdial>>
+  /\ finished' = TRUE /\ UNCHANGED <<vars, hist, held, rdial, cfgd, closs>>
 
 GenNext ==
   /\ ~finished
@@ -41,8 +43,14 @@ GenNext ==
      \/ ResetSnapshot /\ UNCHANGED hist
      \/ ResetSwap /\ Log([a |-> "ResetAll", r |-> 0])
      \/ ResetDone /\ UNCHANGED hist
+     \/ ConfigUpdate /\ Log([a |-> "ConfigUpdate", r |-> 0])
+     \/ (\E c \in Clients : StopFreeA(c) \/ StopFreeB(c)) /\ UNCHANGED hist
+     \/ (CollectStart \/ CollectLatch \/ CollectEnd) /\ UNCHANGED hist
      \/ \E c \in Clients : RemoveSelf(c) /\ UNCHANGED hist
   /\ held' = held \cup {r \in Reqs : rq'[r] = "inhand"}
+  /\ closs' = IF cfgs > 0 /\ cfgd = {} /\ Len(hist') > Len(hist) /\ hist'[Len(hist')].a \in {"ConnLost", "BackendDown", "ResetAll"}
+                THEN hist'[Len(hist')].a ELSE closs
+  /\ cfgd' = IF cfgs > 0 /\ created' > created /\ cfgd = {} THEN {r \in Reqs : rq[r] = "dialing" /\ rq'[r] # "dialing"} ELSE cfgd
   /\ rdial' = IF Len(hist') > Len(hist) /\ hist'[Len(hist')].a = "ResetAll"
                 THEN rdial \cup {r \in Reqs : asking[r] /\ rq[r] \in {"dial", "dialing"}} ELSE rdial
   /\ UNCHANGED finished
@@ -52,8 +60,10 @@ GenSpec == GenInit /\ [][GenNext \/ Finish]_gvars
 \* mandatory strata (exhaustive run, VIEW GenView, ACTION_CONSTRAINT StrataEmit): every way a request that the writer
 \* held at a hand-over of a stalled connection gets its reply - the path is printed when that request is done; the
 \* check takes the shortest path per (command / ASKING hand-over, how the stall ended); and: a redirected request whose
-\* reader (of the redirecting backend's client) was about to create the client of this address when all clients were reset
-StratumHit == \E r \in Reqs : r \in (held' \cup rdial') /\ rq[r] # "done" /\ rq'[r] = "done"
-HitReq == CHOOSE r \in Reqs : r \in (held' \cup rdial') /\ rq[r] # "done" /\ rq'[r] = "done"
-StrataEmit == StratumHit => PrintT("@@STRATUM " \o ToJson([kind |-> IF HitReq \in rdial' THEN "rdial" ELSE "pipe", hist |-> hist']))
+\* reader (of the redirecting backend's client) was about to create the client of this address when all clients were reset;
+\* and: the first connect after a run-time configuration update (kind "cfg": by what made the new connection necessary)
+StratumHit == \E r \in Reqs : r \in (held' \cup rdial' \cup cfgd') /\ rq[r] # "done" /\ rq'[r] = "done"
+HitReq == CHOOSE r \in Reqs : r \in (held' \cup rdial' \cup cfgd') /\ rq[r] # "done" /\ rq'[r] = "done"
+StrataEmit == StratumHit => PrintT("@@STRATUM " \o ToJson([kind |-> IF HitReq \in rdial' THEN "rdial" ELSE IF HitReq \in cfgd' THEN "cfg" ELSE "pipe",
+                                                            hist |-> hist']))
 =============================================================================
